@@ -239,3 +239,29 @@ Proof.
   - destruct f360_spec as [H _]. rewrite H. unfold py_float, dec_R. simpl.
     replace (1 * 360 / 1) with 360 by field. symmetry. apply round_generic; [typeclasses eauto|exact fmt_360].
 Qed.
+
+(** ------------------------------------------------------------------ the whole vector *)
+
+(** Vec.from_str / FrozenVec.from_str applied to the text of a vector with finite components: no normalisation is
+    involved (the constructor stores float(x)), so the statement is the plain distance *)
+Theorem vec_text_roundtrip : forall pc c (x y z : b64) ws1 ob wa s1 s2 wb cb ws2,
+  pcfg_ok pc = true ->
+  all_space ws1 -> all_space wa -> all_space wb -> all_space ws2 ->
+  all_space s1 -> s1 <> [] -> all_space s2 -> s2 <> [] ->
+  opt_bracket (opens pc) ob -> opt_bracket (closes pc) cb ->
+  is_finite x = true -> is_finite y = true -> is_finite z = true ->
+  exists d1 d2 d3,
+    parse_vec pc (ws1 ++ ob ++ wa ++ format6 c (dy_of x) ++ s1 ++ format6 c (dy_of y) ++ s2 ++ format6 c (dy_of z) ++ wb ++ cb ++ ws2)
+      = PFields (Some d1) (Some d2) (Some d3) /\
+    forall d v, In (d, v) [(d1, x); (d2, y); (d3, z)] ->
+      Rabs (py_float d - B2R v) <= 5 / 10000000 + / 2 * ulp radix2 fexp64 (dec_R d).
+Proof.
+  intros pc c x y z ws1 ob wa s1 s2 wb cb ws2 OK H1 H2 H3 H4 H5 H6 H7 H8 H9 H10 Fx Fy Fz.
+  destruct (parse_format_vec pc c (dy_of x) (dy_of y) (dy_of z) ws1 ob wa s1 s2 wb cb ws2 OK H1 H2 H3 H4 H5 H6 H7 H8 H9 H10)
+    as (d1 & d2 & d3 & E & W1 & W2 & W3).
+  exists d1, d2, d3. split; [exact E|].
+  intros d v [Q|[Q|[Q|[]]]]; inversion Q; subst d v.
+  - rewrite <- (dy_of_R x Fx). apply float_parse_error, W1.
+  - rewrite <- (dy_of_R y Fy). apply float_parse_error, W2.
+  - rewrite <- (dy_of_R z Fz). apply float_parse_error, W3.
+Qed.
